@@ -6,10 +6,17 @@
    CONNECT_V2: connect_module returns false when already connected); DISCONNECT, CLIENT_SET_NAME,
    MODULE_READY and data frames never call send_ack; send_ack writes one ACKNOWLEDGE header addressed to the
    sender's module id on the sender's own connection and then copies it to the loggers.
-   The stream-level statement (the ACK subsequence of every connection equals the expected list, in order)
-   is decided against the implementation by the model correspondence and the spec oracle (check_C19). *)
+   End to end (C19_ack_exact, C19_registry_op_silent): when the sender and the registered loggers can be written
+   to, send_ack appends to the global write log exactly one whole ACKNOWLEDGE frame (no payload bytes,
+   destination = the sender's module id, next sequence number) on the sender's connection followed by one copy
+   per registered logger in logger order - and nothing else; with debug logging off the registry operation that
+   precedes it writes nothing and leaves every connection's counter, fault plan and the logger set unchanged.
+   Because the log only grows (C05_append_only) the acknowledgements of successive control frames appear on the
+   sender's connection in the order the frames were processed.
+   The failing-send cases at stream level are decided against the implementation by the model correspondence
+   and the spec oracle (check_C19). *)
 From Coq Require Import ZArith List Bool Lia.
-From Mgr Require Import Gen.MgrDefs Model.Manager Proofs.RegInv Proofs.RegTop Proofs.Connect Proofs.StepInv Proofs.Routing.
+From Mgr Require Import Gen.MgrDefs Model.Manager Proofs.RegInv Proofs.RegTop Proofs.Connect Proofs.StepInv Proofs.Routing Proofs.Exact Proofs.AckExact.
 Import ListNotations.
 Open Scope Z_scope.
 
@@ -81,7 +88,29 @@ Theorem C19_ack_then_loggers : forall c s,
    send_to_loggers cfg fuel hh' (PData 0 0)) s.
 Proof. reflexivity. Qed.
 
+Theorem C19_ack_exact : forall c s,
+  sendable s c -> (forall l, In l (loggers s) -> m_reg (find_mod l (mods s)) = true -> sendable s l) ->
+  exists s', send_ack cfg fuel c s = Ok tt s' /\
+    out s' = out s ++ [(c, OHdr (set_count (ack_hdr s c) (m_count (find_mod c (mods s)) + 1))); (c, OPay (PData 0 0))]
+                   ++ lframes (ack_hdr s c) (PData 0 0) (after_send (ack_hdr s c) (PData 0 0) s c) (loggers s).
+Proof. exact (send_ack_exact cfg fuel). Qed.
+
+Theorem C19_ack_header : forall s c,
+  h_type (ack_hdr s c) = MT_ACKNOWLEDGE /\ h_nbytes (ack_hdr s c) = 0 /\ h_dst_mod (ack_hdr s c) = m_mod_id (find_mod c (mods s)).
+Proof. intros s c. repeat split. Qed.
+
+Theorem C19_registry_op_silent : forall c t s, 10 < loglevel cfg ->
+  (exists s1, add_subscription cfg fuel c t s = Ok tt s1 /\ quiet_step s s1) /\
+  (exists s1, remove_subscription cfg fuel c t s = Ok tt s1 /\ quiet_step s s1).
+Proof. intros c t s. exact (subscription_quiet cfg fuel c t s). Qed.
+
 End C19.
+
+(* lframes spelled out: a registered logger gets a copy, an unregistered entry is skipped *)
+Example C19_lframes_ex : forall hh p s a b,
+  m_reg (find_mod a (mods s)) = true -> m_reg (find_mod b (mods (after_send hh p s a))) = false ->
+  lframes hh p s [a; b] = [(a, OHdr (set_count hh (m_count (find_mod a (mods s)) + 1))); (a, OPay p)].
+Proof. intros hh p s a b Ha Hb. cbn [lframes]. rewrite Ha, Hb. unfold frame_for, cnt. rewrite app_nil_r. reflexivity. Qed.
 
 (* non-vacuity: subscribe twice, unsubscribe something not subscribed, a data frame, a refused connect, with a
    logger connected: acks on conn 2 are exactly 3 (two subscribes, one unsubscribe), the logger (conn 1) gets a copy
@@ -99,3 +128,13 @@ Example C19_ex :
   | Crash _ _ => []
   end = [5; 3; 0]%nat.
 Proof. vm_compute. reflexivity. Qed.
+
+(* the hypotheses of C19_ack_exact are met by a reachable state: a logger on connection 1 and a client on 2 *)
+Example C19_ack_exact_ex :
+  match run (mkConfig 60 true) 60%nat
+    [ERound true [] [] 0; ERound true [] [] 0;
+     ERound false [(1, IFrame (Hk MT_CONNECT 10) (InConnect 1 0)); (2, IFrame (Hk MT_CONNECT 11) (InConnect 0 0))] [1;2] 0] with
+  | Ok _ s => loggers s = [1] /\ sendable s 1 /\ sendable s 2 /\ m_reg (find_mod 1 (mods s)) = true
+  | Crash _ _ => False
+  end.
+Proof. vm_compute. repeat split; discriminate. Qed.
